@@ -147,13 +147,20 @@ func c11Scenario(t *testing.T, res *common.Result, rng *common.Rng, cfg c11cfg, 
 		target.waited = true
 		ch := make(chan waiterResult, 1)
 		waiters = append(waiters, ch)
-		wDesc = append(wDesc, fmt.Sprintf("%s Lock name=%s (held by %s, no wait timeout)", owner, target.Name, target.Owner))
-		logf("%s Lock name=%s size=1 -> (blocked: held by %s)", owner, target.Name, target.Owner)
+		// half of the waiters carry a (long) wait timeout and a lock timeout: a different path in LockServer.Lock
+		var wt, lt *int32
+		wtDesc := "no wait timeout"
+		if len(waiters)%2 == 1 || rng.Chance(50) {
+			wt, lt, wtDesc = i32(600), i32(30), "wait timeout 600 s, lock timeout 30 s"
+		}
+		res.Count("waiter-kind:" + strings.SplitN(wtDesc, ",", 2)[0])
+		wDesc = append(wDesc, fmt.Sprintf("%s Lock name=%s (held by %s, %s)", owner, target.Name, target.Owner, wtDesc))
+		logf("%s Lock name=%s size=1 %s -> (blocked: held by %s)", owner, target.Name, wtDesc, target.Owner)
 		c := g[owner].g.c
 		go func() {
 			ctx, cancel := rpcCtx(60 * time.Second)
 			defer cancel()
-			r, err := c.Lock(ctx, &pb.LockRequest{Name: target.Name, Size: i32(1)})
+			r, err := c.Lock(ctx, &pb.LockRequest{Name: target.Name, Size: i32(1), WaitTimeoutSeconds: wt, LockTimeoutSeconds: lt})
 			ch <- waiterResult{r, err}
 		}()
 		time.Sleep(100 * time.Millisecond) // let the request reach the server and block
